@@ -134,9 +134,34 @@ def gfortran_sample(ctx, rendered, every=10):
         return
     err = fmodel.gfortran_check(rendered)
     ctx.extra["programs_validated_with_gfortran"] = ctx.extra.get("programs_validated_with_gfortran", 0) + 1
+    if err and gfortran_two_names_quirk(rendered, err):
+        ctx.event("gfortran-12-quirk:entity-with-two-local-names-reported-untyped(program-kept)")
+        return
     if err:
         raise HarnessError("generator produced a program gfortran rejects:\n" + err[:1500] + "\n" +
                            "\n".join(f"-- {k}\n{v}" for k, v in rendered.files.items())[:6000])
+
+
+def gfortran_two_names_quirk(rendered, err):
+    """gfortran 12 mishandles an entity that is use-associated under two local names in one scope (legal: F2018 14.2.2): it
+    reports one of the names as untyped.  True if every error of `err` is of that kind and names such an entity."""
+    import re
+
+    prog = getattr(rendered, "prog", None)
+    names = {n.lower() for n in (prog.stats.get("double_name_set") or ())} if prog is not None else set()
+    if not names:
+        return False
+    errs = re.findall(r"^(?:Fatal )?Error: (.*)$", err, re.M)
+    if not errs:
+        return False
+    for e in errs:
+        m = re.match(r"Symbol .(\w+). at \(1\) has no IMPLICIT type", e)
+        if m and m.group(1).lower() in names:
+            continue
+        if e.startswith("Cannot open module file"):
+            continue  # consequence: the module with the error produced no .mod
+        return False
+    return True
 
 
 def reachable_ignoring_accessibility(module_scope, ent, seen=None):
